@@ -8,10 +8,12 @@ from vlib import Case
 
 PROP_FILE = "Properties/C20.v"
 RULE = ("cases = batches of ops over the types of the regenerated qevent schema table: BUILD(type, value) constructs the value through "
-        "the public builders/constructors (all new-format types), serialises with serde_json::to_value and parses back; DE(type, json) "
+        "the public builders/constructors (all new-format types; a validated type's builder is handed ANY well-typed field values, "
+        "including the combination its validator refuses), serialises with serde_json::to_value and parses back; DE(type, json) "
         "parses a JSON tree (reference serialisation of a random value, or a mutated one: key dropped/added, wrong scalar type, "
         "out-of-range integer, null), re-serialises and parses again (all types incl. the legacy format). Values: optional fields "
-        "present/absent, empty/long/non-ASCII strings, boundary integers of each width, every enum variant, empty/non-empty sequences, "
+        "present/absent, empty/long/non-ASCII strings, boundary integers of each width, every enum variant, empty/non-empty sequences "
+        "(the skipped-when-empty fields hold the empty vector/map in about a third of their occurrences), "
         "custom-field maps. A case is non-trivial when some op carries a struct with both a present and an absent optional field and "
         "a boundary integer or a non-first enum variant; distinct by hash of the op list")
 TRUSTED_BASE = ["tools/extract_qevent.py: translator from the serde/derive_builder attributes in qevent/src to coq/Generated/QeventSchema.v "
@@ -19,20 +21,29 @@ TRUSTED_BASE = ["tools/extract_qevent.py: translator from the serde/derive_build
                 "floats are opaque tokens in the model (finite f32/f64 assumed to round-trip through serde_json::Value exactly)",
                 "the Python reference serialiser in tools/props/C20.py (third implementation used by the oracle)"]
 MODELLED = ("serde derive semantics for the attribute set qevent uses (rename/rename_all, skip_serializing_if, serde_with::skip_serializing_none, "
-            "default, flatten, transparent/newtype, tag/content/untagged, try_from validator of ReferenceTime, serde_with hex) over "
+            "default, flatten, transparent/newtype, tag/content/untagged, try_from validator of ReferenceTime and the derive_builder "
+            "field(build = ..) expression of its epoch field, serde_with hex) over "
             "qevent/src/lib.rs, loglevel.rs, quic.rs, quic/*.rs, legacy.rs, legacy/quic.rs; serde_json::Value as a JSON tree")
 ASSUMPTIONS = ["serde derive / serde_json / serde_with behave as modelled by ser/de of coq/Model/Serde.v (checked by the correspondence run, not proved)",
                "floating-point fields hold finite values (NaN/inf serialise to null and do not parse back: out of scope)",
-               "value-level side conditions of `conformsb`: integers within their Rust type, custom-field keys distinct from schema keys, "
-               "an untagged alternative's JSON is not accepted by an earlier alternative, ReferenceTime validator holds"]
+               "value-level side conditions of `conformsb`: integers within their Rust type, custom-field keys distinct from schema keys (F53), "
+               "an untagged alternative's JSON is not accepted by an earlier alternative (F51). No longer assumptions: a skipped field comes "
+               "back from its missing-value (c20_skips_ok: true of every field of every type since the repair of F50) and the "
+               "ReferenceTime validator (c20_reference_time_builder: true of everything the builder builds since the repair of F52; "
+               "ReferenceTime has no other public constructor than builder, Default = system clock, and Deserialize)"]
 MANIFEST = {
     "text": "PARTIAL (serde well-formedness clauses only). Machine-checked Coq theorems (Properties/C20.v) over a schema language for the serde "
             "shapes qevent derives (structs with renamed/skipped/defaulted/flattened fields, Option, sequences, string-keyed maps, hex bytes, "
             "unit/internally/adjacently/externally tagged and untagged enums, try_from validators) with generic ser/de over JSON trees: "
             "for every well-formed schema and every conforming value de(ser v) = v; every serialised Event (new and legacy format) carries "
             "time, name and data (and group_id exactly when set); the schema of every qevent type, regenerated from qevent/src on every run, "
-            "is well-formed except the listed defective types (known findings). Model and crate are run on the same values/JSON trees every "
-            "check (builders -> to_value -> from_value, and from_value -> to_value -> from_value), plus a direct oracle on the implementation.",
+            "is well-formed, every field that is skipped on output (None, empty Vec, empty map) has the skipped value as its serde default at "
+            "every depth of every type (F50 repaired: events with empty vectors parse back; the shape without the default is refuted by name), "
+            "and whatever field values the ReferenceTime builder is given, the value it builds satisfies the type's try_from validator and "
+            "parses back (F52 repaired; the builder as it was is refuted by name). Still open and excluded through `conformsb` (known "
+            "findings): an untagged enum alternative shadowed by an earlier one (F51), a custom field named like a schema key (F53). "
+            "Model and crate are run on the same values/JSON trees every check (builders -> to_value -> from_value, and "
+            "from_value -> to_value -> from_value), plus a direct oracle on the implementation.",
     "note": "Not claimed: 'logging never panics for lack of context' (call-site property of the thread-local span) and 'same application-visible "
             "behaviour with logging enabled/disabled/filtered' (non-interference of the whole stack) — no model short of the whole connection "
             "expresses them. Trusted: Coq kernel, schema translator, extraction, harness, Python reference serialiser. serde-derive semantics are "
@@ -133,6 +144,40 @@ def py_ser(s, v):
             return ("obj", [(tg[1], ("str", name))] + ([] if pj is None else (pj[1] if pj[0] == "obj" else [])))
         return ("obj", [(tg[1], ("str", name))] + ([] if pj is None else [(tg[2], pj)]))
     raise ValueError(t)
+
+
+def refine_ok(pid, v):
+    """try_from validators. 0 and 1: ReferenceTime — clock_type monotonic (variant 1) requires epoch Unknow (variant 0)"""
+    if pid in (0, 1):
+        return not (v[0] == "VStruct" and v[1][0] == ("VEnum", 1, UNIT) and v[1][1][1] != 0)
+    return True
+
+
+def py_build(s, v):
+    """the value the public builders store when handed the field values v: the identity except for ReferenceTime whose
+    builder (validator/builder number 1) stores epoch Unknow whenever the clock type is monotonic"""
+    t = s[0]
+    if t == "named":
+        return py_build(s[2], v)
+    if t == "refine":
+        v = py_build(s[2], v)
+        if s[1] == 1 and not refine_ok(1, v):
+            v = ("VStruct", [v[1][0], ("VEnum", 0, UNIT)] + list(v[1][2:]), v[2], v[3])
+        return v
+    if t == "opt":
+        return ("VSome", py_build(s[1], v[1])) if v[0] == "VSome" else v
+    if t in ("seq", "arr"):
+        return ("VSeq", [py_build(s[-1], x) for x in v[1]])
+    if t == "struct":
+        return ("VStruct", [py_build(f[3], x) for f, x in zip(s[1], v[1])], [py_build(fs, x) for fs, x in zip(s[2], v[2])], v[3])
+    if t == "enum":
+        shape = s[2][v[1]][2]
+        if shape[0] == "new":
+            return ("VEnum", v[1], py_build(shape[1], v[2]))
+        if shape[0] == "struct":
+            p = v[2]
+            return ("VEnum", v[1], ("VStruct", [py_build(f[3], x) for f, x in zip(shape[1], p[1])], p[2], p[3]))
+    return v
 
 
 def ser_fields(fields, vals):
@@ -312,14 +357,9 @@ def flat_args(args):
 # known defect classes, as predicates on the *input* (independent of the implementation)
 # --------------------------------------------------------------------------------------
 # the defect classes are pinned to the places where they are known (mirrors coq/Proofs/Serde.v known_defects):
-# a new skipped-without-default field or a new shadowed alternative is NOT classified and surfaces as a violation
-KNOWN_F50 = {("quic::transport::VersionInformation", "server_versions"), ("quic::transport::VersionInformation", "client_versions"),
-             ("quic::transport::PacketSent", "supported_versions"), ("quic::transport::PacketReceived", "supported_versions"),
-             ("quic::transport::PacketsAcked", "packet_nubers"),
-             ("quic::transport::UdpDatagramsSent", "raw"), ("quic::transport::UdpDatagramsSent", "ecn"), ("quic::transport::UdpDatagramsSent", "datagram_ids"),
-             ("quic::transport::UdpDatagramsReceived", "raw"), ("quic::transport::UdpDatagramsReceived", "ecn"), ("quic::transport::UdpDatagramsReceived", "datagram_ids"),
-             ("legacy::quic::TransportVersionInformation", "server_versions"), ("legacy::quic::TransportVersionInformation", "client_versions"),
-             ("legacy::quic::TransportPacketReceived", "supported_versions"), ("legacy::quic::TransportPacketSent", "supported_versions")}
+# a new shadowed alternative is NOT classified and surfaces as a violation
+# F50 (skipped-when-empty Vec fields without serde default) and F52 (ReferenceTime builder vs its validator) are REPAIRED:
+# no class absorbs them any more; an empty vector in any field / any ReferenceTime the builder is asked for must round-trip.
 KNOWN_F51 = {("TimeClockType", 2), ("TimeEpoch", 1), ("quic::connectivity::ConnectionState", 1), ("quic::ConnectionCloseErrorCode", 2),
              ("legacy::quic::ConnectionCloseErrorCode", 1), ("legacy::quic::StreamDataLocation", 4)}
 
@@ -354,8 +394,6 @@ def classes(s, v, acc=None, where=None):
     if t == "named":
         classes(s[2], v, acc, s[1])
     elif t == "refine":
-        if s[1] == 0 and v[0] == "VStruct" and v[1][0][1] == 1 and v[1][1][1] != 0:
-            acc.add("F52")
         classes(s[2], v, acc, where)
     elif t == "opt":
         if v[0] == "VSome":
@@ -384,10 +422,45 @@ def classes(s, v, acc=None, where=None):
     return acc
 
 
+def features(s, v, acc=None):
+    """labels of the repaired classes a BUILD value exercises (for the histogram): a skipped-when-empty field holding the
+    empty vector/map (F50), a validated type handed field values its validator refuses (F52)"""
+    acc = set() if acc is None else acc
+    t = s[0]
+    if t == "named":
+        features(s[2], v, acc)
+    elif t == "refine":
+        if not refine_ok(s[1], v):
+            acc.add("regress:F52-builder-given-refused-combination")
+        features(s[2], v, acc)
+    elif t == "opt":
+        if v[0] == "VSome":
+            features(s[1], v[1], acc)
+    elif t in ("seq", "arr"):
+        for x in v[1]:
+            features(s[-1], x, acc)
+    elif t == "struct":
+        feature_fields(s[1], v[1], acc)
+        for fs, fv in zip(s[2], v[2]):
+            features(fs, fv, acc)
+    elif t == "enum":
+        shape = s[2][v[1]][2]
+        if shape[0] == "new":
+            features(shape[1], v[2], acc)
+        elif shape[0] == "struct":
+            feature_fields(shape[1], v[2][1], acc)
+    return acc
+
+
+def feature_fields(fields, vals, acc):
+    for (key, skip, d, fs), fv in zip(fields, vals):
+        if skip == "empty" and fv[0] in ("VSeq", "VMap") and not fv[1]:
+            acc.add("regress:F50-empty-skipped-field")
+        features(fs, fv, acc)
+
+
 def class_fields(fields, vals, acc, where):
     for (key, skip, d, fs), fv in zip(fields, vals):
-        if (where, key) in KNOWN_F50 and skip == "empty" and fv[0] in ("VSeq", "VMap") and not fv[1]:
-            acc.add("F50")
         classes(fs, fv, acc, where)
 
 
@@ -473,7 +546,9 @@ def rand_entries(rng, avoid, adversarial=False):
 
 
 class Gen:
-    """random values of a schema; `adv` allows values of the known defect classes (labelled by classes())"""
+    """random values of a schema; `adv` allows values of the known defect classes (labelled by classes()).
+    build=True: field values handed to the builders (a validated type gets ANY field values: what the builder makes of them
+    must parse back); build=False: values as they exist after parsing (validators hold)"""
 
     def __init__(self, rng, adv=0.0, build=False, sweep=None):
         self.rng, self.adv, self.build, self.sweep = rng, adv, build, sweep
@@ -485,11 +560,18 @@ class Gen:
         if t == "named":
             return self.value(s[2], s[1], depth)
         if t == "refine":
+            v = self.value(s[2], where, depth)
+            if self.build:
+                if s[1] in (0, 1) and rng.random() < 0.4:
+                    # the combination the validator refuses, asked of the builder: monotonic clock, epoch given or defaulted
+                    epoch = rng.choice([("VEnum", 1, ("VStr", "1970-01-01T00:00:00.000Z")), ("VEnum", 1, ("VStr", rand_str(rng))), ("VEnum", 0, UNIT)])
+                    v = ("VStruct", [("VEnum", 1, UNIT), epoch] + list(v[1][2:]), v[2], v[3])
+                return v
             for _ in range(20):
-                v = self.value(s[2], where, depth)
-                if rng.random() < self.adv or "F52" not in classes(s, v):
+                if refine_ok(s[1], v):
                     return v
-            return v
+                v = self.value(s[2], where, depth)
+            return py_build(("refine", 1, s[2]), v)
         if t == "int":
             return ("VInt", rand_int(rng, s[1], s[2]))
         if t == "float":
@@ -549,9 +631,9 @@ class Gen:
         v = self.value(fs, where, depth + 1)
         if h == "some" and v[0] == "VNone":
             v = ("VSome", self.value(fs[1], where, depth + 1))
-        if (where, key) in KNOWN_F50 and v[0] in ("VSeq", "VMap") and not v[1] and self.rng.random() >= self.adv:
-            # keep clear of the F50 class unless asked for: give the sequence one element
-            v = ("VSeq", [self.value(fs[1], where, depth + 1)])
+        if skip == "empty" and self.rng.random() < 0.3:
+            # the skipped value itself (F50, repaired: every such field has it as its serde default)
+            v = ("VMap", []) if v[0] == "VMap" else ("VSeq", [])
         return v
 
 
@@ -678,7 +760,7 @@ def gen_sweep(rng):
                 ops.append(op_build(path, v))
                 meta.append("B")
             if not classes(tr.schemas[path], v):
-                ops.append(op_de(path, py_ser(tr.schemas[path], v)))
+                ops.append(op_de(path, py_ser(tr.schemas[path], py_build(tr.schemas[path], v))))
                 meta.append("V")
         for lo in range(0, len(ops), 10):
             cases.append(Case("sweep%d" % k_, ops[lo:lo + 10], meta={"m": meta[lo:lo + 10]}))
@@ -735,14 +817,14 @@ def check_op(k_, tag, args, line, kind):
         if flag != 1:
             return ("parseback: op %d a built %s does not parse back to an equal value (flag %d: %s)" %
                     (k_, path, flag, "different value" if flag == 0 else "rejected"), cls)
-        if j != canon(py_ser(s, body)):
+        if j != canon(py_ser(s, py_build(s, body))):
             return ("reference: op %d JSON of the built %s differs from the reference serialisation" % (k_, path), cls)
         return None
     # DE
     if o[0] == 0:
         if kind == "V":
             # a reference serialisation of a conforming value must be accepted
-            return ("rejected: op %d the reference JSON of a %s value is rejected by from_value" % (k_, path), {"F50"} if f50_json(s, body) else set())
+            return ("rejected: op %d the reference JSON of a %s value is rejected by from_value" % (k_, path), set())
         return None
     if o[0] != 1:
         return ("de: op %d unexpected observation %s" % (k_, o[:3]), set())
@@ -761,45 +843,13 @@ def check_op(k_, tag, args, line, kind):
     return None
 
 
-def f50_json(s, j, where=None):
-    """the JSON (reference serialisation) omits a skipped-when-empty key of the known F50 list: the F50 class on the DE side"""
-    while s[0] in ("named", "refine"):
-        if s[0] == "named":
-            where = s[1]
-        s = s[2]
-    s0 = s
-    if s0[0] == "struct" and j[0] == "obj":
-        d = dict(j[1])
-        for key, skip, dflt, fs in s0[1]:
-            if skip == "empty" and (where, key) in KNOWN_F50 and key not in d:
-                return True
-            if key in d and f50_json(fs, d[key], where):
-                return True
-        for fl in s0[2]:
-            if f50_json(fl, j, where):
-                return True
-        return False
-    if s0[0] == "opt":
-        return j[0] != "null" and f50_json(s0[1], j, where)
-    if s0[0] in ("seq", "arr") and j[0] == "arr":
-        return any(f50_json(s0[-1], x, where) for x in j[1])
-    if s0[0] == "enum" and j[0] == "obj":
-        d = dict(j[1])
-        tg = s0[1]
-        for name, untag, shape in s0[2]:
-            if untag or tg[0] == "untagged":
-                if shape[0] == "new" and f50_json(shape[1], j, where):
-                    return True
-            elif tg[0] in ("int", "adj") and d.get(tg[1]) == ("str", name):
-                if tg[0] == "adj" and shape[0] == "new" and tg[2] in d:
-                    return f50_json(shape[1], d[tg[2]], where)
-                if tg[0] == "int" and shape[0] == "struct":
-                    return f50_json(("struct", shape[1], [], False), j, where)
-    return False
-
-
 def oracle(case, obs):
-    kinds = case.meta.get("m") or [None] * len(case.ops)
+    kinds = case.meta.get("m")
+    if not kinds:
+        # corpus / replay files carry no per-op labels; `CASE <name> 1` marks a case all of whose DE ops are reference JSON of
+        # conforming values (regression cases of repaired findings): they must be accepted and re-serialise to themselves
+        strict = bool(case.cfg) and str(case.cfg[0]) == "1"
+        kinds = ["V" if strict and tag == 0 else None for tag, _ in case.ops]
     if len(obs) != len(case.ops):
         return "length: %d observations for %d ops (%s)" % (len(obs), len(case.ops), obs[-1] if obs else "")
     known = None
@@ -807,7 +857,7 @@ def oracle(case, obs):
         try:
             r = check_op(k_, tag, args, line, kinds[k_] if k_ < len(kinds) else None)
         except (IndexError, ValueError, TypeError, KeyError) as e:
-            if k_ >= len(kinds) or kinds[k_] is None:
+            if k_ >= len(kinds) or (kinds[k_] is None and not case.cfg):
                 continue            # a corpus op that no longer fits the regenerated schema
             r = ("garbled: op %d observation cannot be decoded (%s)" % (k_, e), set())
         if r is None:
@@ -881,6 +931,7 @@ def hist(case):
             try:
                 for c in classes(tr.schemas[path], body):
                     lab.append("class:" + c)
+                lab.extend(sorted(features(tr.schemas[path], body)))
             except (IndexError, ValueError, TypeError, KeyError):
                 lab.append("class:ill-typed")
             if path == "Event":
